@@ -24,6 +24,17 @@ CLAIMED = {
              "search; dimensions <= 12 (grids <= 60 nodes in the thorough tier).",
         note="Trusted: numpy; tolerance 1e-9 for sine-transform round trips; nodes within 1e-9 of a step boundary may belong to either adjacent step.",
         design="3/C13"),
+    "C16": dict(
+        technique="Hypothesis property tests: optimality-system residuals vs numpy.linalg references, matrix-vs-function differential, differential against direct SciPy calls, variational characterisation of projections/prox",
+        text="CGLS/PCGLS run to tolerance 1e-12 on generated well-conditioned problems (over/under-determined, dense/sparse/function "
+             "form, shift, start vector, sparse SPD preconditioner) must solve the (shifted) normal equations and agree with the "
+             "numpy reference and between operator forms; FISTA/ISTA results must be fixed points of the prox-gradient map and no "
+             "worse than perturbed feasible points; LM results must be stationary within gradtol; the SciPy wrappers must reproduce "
+             "the direct SciPy call bit for bit; projections/soft-thresholding must equal the closed forms and satisfy the variational "
+             "inequality. Iteration-cap exits are inconclusive. Sizes <= 14.",
+        note="Trusted: numpy.linalg, SciPy optimisers as reference; LM is exercised with gradtol >= 1e-8 (tighter tolerances are "
+             "not reachable in floating point on large-residual problems, see DESIGN).",
+        design="3/C16"),
     "C19": dict(
         technique="Hypothesis property tests against a numpy reference model (incl. operation-sequence histories) + differential test against arviz per variable",
         text="burnthin, statistics and conversion chains of Samples/JointSamples are compared with direct numpy computation on the "
